@@ -29,7 +29,7 @@ RULE = (
     "templates per cell; characters are sampled from the codec's own repertoire. distinct = (cell, template "
     "text); non-trivial = the template holds at least one non-ASCII character."
 )
-RULE += ' added since: stateful output codecs, corrupted declarations, module-head options (future_imports / imports) around the coding line, get_def(..).render identity of encoded output. the output identities also on templates built by a TemplateLookup that carries output_encoding / encoding_errors. lone surrogates under nine error handlers and ten output codecs through Template, TemplateLookup and get_def.'
+RULE += ' added since: stateful output codecs, corrupted declarations, module-head options (future_imports / imports) around the coding line, get_def(..).render identity of encoded output. the output identities also on templates built by a TemplateLookup that carries output_encoding / encoding_errors. lone surrogates under nine error handlers and ten output codecs through Template, TemplateLookup and get_def. ModuleTemplate and ModuleTemplate.get_def as routes of the unencodable-everywhere scenario.'
 ASSUMPTIONS = ["CPython codecs are the reference; only ASCII-compatible encodings are in scope"]
 MIN_NONTRIVIAL = 200
 REQUIRED_COUNTERS = ["renders_compared", "expected_compile_errors_seen", "module_reloads", "fresh_process_reloads", "output_encodings_compared", "strict_encode_errors_matched"]
@@ -365,9 +365,14 @@ def run_unencodable_everywhere(res):
     for enc in ("utf-8", "UTF-8", "utf8", "utf_8", "utf-16", "utf-32", "utf-16-le", "ascii", "latin-1", "cp1251"):
         for errors in ("strict", "replace", "ignore", "backslashreplace", "xmlcharrefreplace", "surrogatepass", "surrogateescape", "htmlentityreplace", "namereplace"):
             for v in ("\ud800", "caf\udce9.txt", "plain", "\u20ac"):
-                for route in ("Template", "TemplateLookup", "get_def"):
+                for route in ("Template", "TemplateLookup", "get_def", "ModuleTemplate", "ModuleTemplate.get_def"):
                     try:
-                        if route == "TemplateLookup":
+                        if route.startswith("ModuleTemplate"):
+                            from mako.template import ModuleTemplate
+                            t = ModuleTemplate(T(src).module, output_encoding=enc, encoding_errors=errors)
+                            if route.endswith("get_def"):
+                                t = t.get_def("f1")
+                        elif route == "TemplateLookup":
                             lk = L(output_encoding=enc, encoding_errors=errors)
                             lk.put_string("s.html", src)
                             t = lk.get_template("s.html")
